@@ -707,11 +707,15 @@ var c09Variants = map[string][]string{
 		"unjson(\"for true {}\")", "eval(\"for true {}\")", "m = macro(x) {for true {}}; m(1)", "func w(){unjson(\"for true {}\")}; w()", "m = macro(x) {unjson(\"for true {}\")}; m(1)"},
 	"recurse": {"func f(n){vtick(); 1+f(n+1)}; f(0)", "f=func(n){vtick(); 1+self(n+1)}; f(0)", "func f(n){vtick(); [f(n+1)][0]}; f(0)",
 		"func f(a,b,c,d,e,g,h){vtick(); 1+f(a+1,b,c,d,e,g,h)}; f(0.5,\"b\",\"c\",\"d\",\"e\",\"g\",\"h\")", "func f(n){vtick(); if true {f(n+1)}}; f(0)", "func f(){vtick(); f()}; f()",
-		"func f(n){vtick(); {\"k\":f(n+1)}}; f(0)", "func f(n){vtick(); -f(n+1)}; f(0)"},
+		"func f(n){vtick(); {\"k\":f(n+1)}}; f(0)", "func f(n){vtick(); -f(n+1)}; f(0)",
+		// the recursive call sits in a counted loop whose variable is in a register (released while the guard's panic unwinds)
+		"func f(n){vtick(); for i = 0:2 {f(n+i+1)}}; f(0)", "func f(n){vtick(); for i = 2 {for j = 2 {f(n+1)}}}; f(0)", "func f(a, b){vtick(); for k = 1:3 {f(a+k, b)}}; f(0, \"s\")"},
 	"mutual":      {"func a(n){vtick(); 1+b(n+1)}; func b(n){1+a(n+1)}; a(0)", "func a(n){vtick(); b(n+1)}; func b(n){c(n+1)}; func c(n){a(n)}; a(0)"},
 	"closures":    {"mk=func(n){func(){vtick(); mk(n+1)()}}; mk(0)()", "mk=func(n){()=>{vtick(); mk(n+1)()}}; mk(0)()", "func mk(n){x=n; func(){vtick(); y=x; mk(y+1)()}}; mk(0)()"},
 	"sconcat":     {"s=\"x\"; for true {vtick(); s=s+s}", "s=\"xy\"; for 60 {vtick(); s=s+s}; len(s)", "func d(s){vtick(); d(s+s)}; d(\"x\")"},
-	"aconcat":     {"a=[1]; for true {vtick(); a=a+a}", "a=[1,2]; for 60 {vtick(); a=a+a}; len(a)", "m={0:0}; n=1; for true {vtick(); t={}; for kv=m {t[kv.key+n]=0}; m=m+t; n=n*2}"},
+	"aconcat":     {"a=[1]; for true {vtick(); a=a+a}", "a=[1,2]; for 60 {vtick(); a=a+a}; len(a)", "m={0:0}; n=1; for true {vtick(); t={}; for kv=m {t[kv.key+n]=0}; m=m+t; n=n*2}",
+		// many medium sized results that all stay alive (each far below what is free when it is requested)
+		"k=[]; for true {vtick(); k = k + [[0]*500000]}", "k=[]; for true {vtick(); k = k + [\"x\"*4000000]}", "m={}; n=0; for true {vtick(); m[n] = [0]*300000; n++}"},
 	"srepeat":     {"s=\"abcdefgh\"*(1<<40); len(s)", "s=\"abcdefgh\"*(1<<61); len(s)", "s=\"abcdefgh\"*((1<<60)+1); len(s)", "s=\"x\"*(1<<62); len(s)", "s=\"abcdefgh\"*9223372036854775807; len(s)"},
 	"arepeat":     {"a=[1,2,3,4]*(1<<40); len(a)", "a=[1]*(1<<40); len(a)", "a=[1,2]*(1<<36); len(a)"},
 	"arepeatwrap": {"a=[1,2,3,4]*(1<<62); len(a)", "a=[1,2,3,4,5,6,7,8]*(1<<61); len(a)",
@@ -1289,6 +1293,10 @@ func c09Pinned(c *Ctx) []c09Plan {
 		c09Plan{WantRefuse: true, Job: c09Job{Skel: "srepeat", Src: "s=\"abcdefgh\"*(1<<40); len(s)", MaxDepth: 100, DeadlineMs: 100, MemLimit: M64, Via: "one"}},
 		c09Plan{WantRefuse: true, Job: c09Job{Skel: "range", Src: "a=0:(1<<40); len(a)", MaxDepth: 100, DeadlineMs: 100, MemLimit: M64, Via: "string"}},
 		c09Plan{Job: c09Job{Skel: "aconcat", Src: "a=[1]; for true {vtick(); a=a+a}", MaxDepth: 100, DeadlineMs: 1000, MemLimit: M64, Via: "one"}},
+		c09Plan{Job: c09Job{Skel: "aconcat", Src: "k=[]; for true {vtick(); k = k + [[0]*500000]}", MaxDepth: 100, DeadlineMs: 3000, MemLimit: 256 << 20, Via: "one", HardCap: 2 << 30}},
+		c09Plan{Job: c09Job{Skel: "aconcat", Src: "m={}; n=0; for true {vtick(); m[n] = [0]*300000; n++}", MaxDepth: 100, DeadlineMs: 3000, MemLimit: 256 << 20, Via: "string", HardCap: 2 << 30}},
+		c09Plan{WantMaxDepth: true, Job: c09Job{Skel: "recurse", Src: "func f(n){vtick(); for i = 0:2 {f(n+i+1)}}; f(0)", MaxDepth: 100, DeadlineMs: 2000, MemLimit: M64, Via: "one"}},
+		c09Plan{WantMaxDepth: true, Job: c09Job{Skel: "recurse", Src: "func f(n){vtick(); for i = 2 {for j = 2 {f(n+1)}}}; f(0)", MaxDepth: 10, DeadlineMs: 2000, MemLimit: M64, Via: "string"}},
 	)
 	// chains and nestings far beyond what the Go stack takes when the parser, printer or evaluator recurses on them unguarded
 	for _, g := range []string{"elseif", "sum", "dot", "callchain", "index", "lambda", "strcat", "block", "funcblock", "forblock"} {
